@@ -55,6 +55,17 @@ Theorem ACC_C02_order : forall (S : QBase F64) (x y : Qt S),
     (magnitude S x < magnitude S y -> c <> Gt) /\ (magnitude S y < magnitude S x -> c <> Lt) /\ (magnitude S x = magnitude S y -> c = Eq).
 Proof. exact cmp_never_reversed. Qed.
 
+(** ... and it is the exact order whenever the magnitudes differ by more than the rounding of the two products *)
+Theorem ACC_C02_separated : forall (S : QBase F64) (x y : Qt S),
+  q_unit S x <> q_unit S y ->
+  is_finite 53 1024 (q_amount S x) = true -> is_finite 53 1024 (q_amount S y) = true ->
+  is_finite 53 1024 (u_scale S (q_unit S x)) = true -> is_finite 53 1024 (u_scale S (q_unit S y)) = true ->
+  normal (magnitude S x) -> normal (magnitude S y) ->
+  exists c, HasRefUnit_partial_cmp S x y = Ok (Some c) /\
+    (magnitude S x + u64 * (Rabs (magnitude S x) + Rabs (magnitude S y)) < magnitude S y -> c = Lt) /\
+    (magnitude S y + u64 * (Rabs (magnitude S x) + Rabs (magnitude S y)) < magnitude S x -> c = Gt).
+Proof. exact cmp_separated. Qed.
+
 (** C03: a + b across units *)
 Theorem ACC_C03_add : forall (S : QBase F64), QLaws S -> forall (x y : Qt S),
   q_unit S y <> q_unit S x -> In (q_unit S x) (u_iter S) ->
@@ -150,6 +161,7 @@ Print Assumptions ACC_operations.
 Print Assumptions ACC_C01_convert.
 Print Assumptions ACC_C01_not_vacuous.
 Print Assumptions ACC_C02_order.
+Print Assumptions ACC_C02_separated.
 Print Assumptions ACC_C03_add.
 Print Assumptions ACC_C03_sub.
 Print Assumptions ACC_C03_ratio.
